@@ -72,9 +72,10 @@ type c09Case struct {
 	ReqSize   int      `json:"req_size"`
 	Filter    string   `json:"filter"` // prepost | cf
 	GapMs     int      `json:"gap_ms"`
-	Prime     bool     `json:"prime"`   // one call (answered at once) establishes the connection before the callers start
-	Warm      bool     `json:"warm"`    // the adapter proxy exists before the first call (concurrent first callers share it)
-	Predict   bool     `json:"predict"` // outcome classes and times are determined by the script (sent to the model's canonical run)
+	EarlyMs   int      `json:"early_ms"` // noread-early: when the peer writes its unsolicited replies
+	Prime     bool     `json:"prime"`    // one call (answered at once) establishes the connection before the callers start
+	Warm      bool     `json:"warm"`     // the adapter proxy exists before the first call (concurrent first callers share it)
+	Predict   bool     `json:"predict"`  // outcome classes and times are determined by the script (sent to the model's canonical run)
 	Obs       *c09Obs  `json:"obs,omitempty"`
 }
 
@@ -121,6 +122,9 @@ func c09RunScenario(c *c09Case) *c09Obs {
 	obs := &c09Obs{}
 	log := &c09Log{t0: time.Now()}
 	peer, err := newC09Peer(log, c.Conn, c.Acts)
+	if peer != nil {
+		peer.earlyMs, peer.earlyN = c.EarlyMs, c.Callers*c.Calls
+	}
 	if err != nil {
 		obs.Fatal = "peer: " + err.Error()
 		return obs
@@ -258,7 +262,7 @@ func c09RunScenario(c *c09Case) *c09Obs {
 			}
 		} else if len(resp.SBuffer) >= 4 {
 			pay = uint32(uint8(resp.SBuffer[0]))<<24 | uint32(uint8(resp.SBuffer[1]))<<16 | uint32(uint8(resp.SBuffer[2]))<<8 | uint32(uint8(resp.SBuffer[3]))
-			if pay != tag || resp.IRequestId != infos[call].id {
+			if (pay != tag && !(c.Conn == "noread-early" && pay == c09EarlyPay)) || resp.IRequestId != infos[call].id {
 				out = "badreply"
 			}
 		} else {
@@ -394,8 +398,10 @@ func c09Nominal(c *c09Case, rank int, r c09CallObs) int64 {
 	switch {
 	case c.Conn == "stall":
 		return int64((rank + 1) * c.DialMs)
-	case c.Conn == "noread" && r.Out == "error":
+	case strings.HasPrefix(c.Conn, "noread") && r.Out == "error":
 		return int64(c.WriteMs)
+	case c.Conn == "noread-early" && r.Out == "reply":
+		return int64(c.EarlyMs)
 	case r.Out == "error":
 		return 0
 	default:
@@ -460,7 +466,7 @@ func c09Monitors(c *c09Case) (fails []Failure, timing bool) {
 			// the two confirmed defects, each only as far as its mechanism explains the delay
 			if c.Conn == "stall" && c.Callers > 1 && r.DurMs <= int64((rank+1)*c.DialMs+c09SlackMs) {
 				sig = "call-deadline / stalled-dial x concurrent callers"
-			} else if c.Conn == "noread" && r.Out == "error" && r.DurMs <= int64(c.WriteMs+c09SlackMs) {
+			} else if strings.HasPrefix(c.Conn, "noread") && r.Out == "error" && r.DurMs <= int64(c.WriteMs+c09SlackMs) {
 				sig = "call-deadline / send-queue full"
 			}
 			add(sig, fmt.Sprintf("%s: call %d (%s) returned after %d ms; effective deadline %d ms + dial bound %d ms + slack %d ms = %d ms", c.Name, r.Call, r.Out, r.DurMs, c.eff(), dialB, c09SlackMs, bound))
@@ -511,7 +517,7 @@ func c09ActsKey(c *c09Case) string {
 	var ks []string
 	for _, a := range c.Acts {
 		k := a.Do
-		if a.Do == "reply" || a.Do == "dup" || a.Do == "forged" || a.Do == "garbbody" {
+		if a.Do == "reply" || a.Do == "dup" || a.Do == "dupburst" || a.Do == "forged" || a.Do == "garbbody" {
 			if a.DelayMs >= c.eff() {
 				k += "-late"
 			}
@@ -571,14 +577,14 @@ func c09Coq(c *c09Case) string {
 	if o == nil || o.Fatal != "" {
 		return ""
 	}
-	conn := map[string]string{"accept": "CAccept", "refuse": "CRefuse", "stall": "CStall", "accept-close": "CAcceptClose", "noread": "CNoRead"}[c.Conn]
+	conn := map[string]string{"accept": "CAccept", "refuse": "CRefuse", "stall": "CStall", "accept-close": "CAcceptClose", "noread": "CNoRead", "noread-early": fmt.Sprintf("(CNoReadEarly %d)", c09U(c.EarlyMs))}[c.Conn]
 	var acts []string
 	for _, a := range c.Acts {
 		junk, reply, dup, down := "false", "None", "false", "false"
 		switch a.Do {
 		case "reply":
 			reply = fmt.Sprintf("(Some %d)", c09U(a.DelayMs))
-		case "dup":
+		case "dup", "dupburst":
 			reply, dup = fmt.Sprintf("(Some %d)", c09U(a.DelayMs)), "true"
 		case "forged", "garbbody":
 			junk, reply = "true", fmt.Sprintf("(Some %d)", c09U(a.DelayMs))
@@ -779,6 +785,12 @@ func c09Gen(tier string, rng *rand.Rand) []c09Case {
 		c = base("dup-concurrent", "accept", []c09Act{{Do: "dup", DelayMs: 20}})
 		c.Callers = pick(2, 8, 16)
 		cs = append(cs, maybePrime(c))
+		c = base("dup-burst-concurrent", "accept", []c09Act{{Do: "dupburst", DelayMs: pick(0, 20)}})
+		c.Callers = pick(4, 16, 32)
+		cs = append(cs, maybePrime(c))
+		c = base("dup-burst-sequential", "accept", []c09Act{{Do: "dupburst", DelayMs: pick(0, 20)}})
+		c.Calls = 6
+		cs = append(cs, c)
 		c = base("dup-late-concurrent", "accept", nil)
 		c.Acts = []c09Act{{Do: "dup", DelayMs: r10(c.TimeoutMs * 3 / 2)}}
 		c.Callers = pick(2, 8, 16)
@@ -817,6 +829,18 @@ func c09Gen(tier string, rng *rand.Rand) []c09Case {
 		c.WriteMs = 600
 		c.QueueLen = 1
 		c.Callers = pick(4, 5)
+		c.ReqSize = 8 << 20
+		cs = append(cs, c)
+		// ... and answers requests it never read: the replies for callers still blocked in Send find the callers' channels
+		// and must be given up after ReadTimeout
+		c = base("never-reading-peer-early-replies", "noread-early", []c09Act{{Do: "none"}})
+		c.TimeoutMs = 200
+		c.DialMs = 200
+		c.WriteMs = 600
+		c.ReadMs = pick(50, 100)
+		c.QueueLen = 1
+		c.Callers = pick(4, 5)
+		c.EarlyMs = 50
 		c.ReqSize = 8 << 20
 		cs = append(cs, c)
 		c = base("never-reading-peer-room", "noread", []c09Act{{Do: "none"}})
